@@ -310,7 +310,7 @@ def parse_dump_records(path, var):
     rec = re.compile(r"\[([^\[\]]*)\]")
     fld = re.compile(r"(\w+)\s*\|->\s*(\"[^\"]*\"|-?\d+|TRUE|FALSE)")
     for st in states:
-        m = re.search(r"^%s = (.*?)(?=^\w+ = |\Z)" % re.escape(var), st, flags=re.M | re.S)
+        m = re.search(r"^(?:/\\ )?%s = (.*?)(?=^(?:/\\ )?\w+ = |\Z)" % re.escape(var), st, flags=re.M | re.S)
         body = m.group(1) if m else ""
         seq = []
         for r in rec.findall(body):
